@@ -41,7 +41,7 @@ class C18(Check):
         "cases: integration-independent request = media type {each documented request content type x parameter spellings (charset=utf-8 in "
         "several spellings, other parameters), case variants, 11 near misses (application/jsonx, x-json, text/json, vnd.api+json ...), unrelated "
         "types, header missing} x body {C01-C03 request documents: valid, invalid, batch, notification, non-JSON; four non-UTF-8 byte strings} x "
-        "status-by-error function {default, 4 others} x JSON encoder / decoder classes configured on the integration {library defaults, application classes: floats parsed as Decimal, Decimal results written as tagged strings; the reply is then also compared with a dispatcher outside any integration configured the same way} x endpoint {base path, extra endpoint prefix} x scripted method behaviours; every case "
+        "status-by-error function {default, 4 others} x JSON encoder / decoder classes configured on the integration {library defaults, application classes: floats parsed as Decimal, Decimal results written as tagged strings; the reply is then also compared with a dispatcher outside any integration configured the same way} x endpoint {base path, extra endpoint prefix registered with or without a trailing slash} x scripted method behaviours; every case "
         "is POSTed to aiohttp (TestClient on loopback), flask and werkzeug test clients (werkzeug: default status function and base path only - it "
         "has no such options). Oracle: accepted media type => body == the integration's own dispatcher called on the decoded text, reply "
         "media type application/json, status = the configured function of the dispatcher's codes, nothing returned => 200 + empty body, same "
@@ -57,7 +57,8 @@ class C18(Check):
     trusted_base = ['the framework test clients (aiohttp TestClient/TestServer on loopback, flask / werkzeug test clients)']
     required_classes = ['media/documented-bare', 'media/documented-params', 'media/case-variant', 'media/near-miss', 'media/unrelated', 'media/missing',
                         'body/non-utf8', 'body/nothing-returned', 'body/batch', 'body/not-json', 'status/non-default', 'endpoint/prefix',
-                        'integration/aiohttp', 'integration/flask', 'integration/werkzeug', 'codec/custom', 'codec/custom/took-effect']
+                        'integration/aiohttp', 'integration/flask', 'integration/werkzeug', 'codec/custom', 'codec/custom/took-effect',
+                        'endpoint/prefix-registered-with-trailing-slash']
 
     def strategy(self, tier: str):
         reg = stdreg.std_registry('sync') + [httpapps.where_method('base', 'sync'), httpapps.where_method('sub', 'sync')] * 3
@@ -74,10 +75,11 @@ class C18(Check):
         s_body = st.one_of(st.builds(lambda d: {'text': d}, doc), st.builds(lambda d: {'text': d}, doc), st.builds(lambda d: {'text': d}, doc),
                            st.builds(lambda b: {'bytes': b}, st.sampled_from(BAD_BODIES)))
         return st.builds(
-            lambda m, b, s, e, beh, base, codec: {'media': m, 'body': b, 'status': s, 'endpoint': e, 'behaviours': beh, 'base': base, 'codec': codec},
+            lambda m, b, s, e, beh, base, codec, ps: {'media': m, 'body': b, 'status': s, 'endpoint': e, 'behaviours': beh, 'base': base, 'codec': codec,
+                                                      'prefix_style': ps},
             s_media, s_body, st.sampled_from(['default', 'default'] + [k for k in httpapps.STATUS_FUNCS if k != 'default']),
             st.sampled_from(['base', 'base', 'prefix']), stdreg.behaviours(), st.sampled_from(['/api', '/api/v1', '/rpc']),
-            st.sampled_from(['default', 'default', 'custom']),
+            st.sampled_from(['default', 'default', 'custom']), st.sampled_from(['plain', 'trailing-slash']),
         )
 
     def corpus(self):
@@ -96,6 +98,7 @@ class C18(Check):
             {**base, 'media': 'application/json', 'codec': 'custom', 'body': t({'jsonrpc': '2.0', 'id': 1, 'method': 'echo', 'params': [1.5, {'a': [2.25]}]})},
             {**base, 'media': 'application/json', 'codec': 'custom', 'endpoint': 'prefix',
              'body': t([call, {'jsonrpc': '2.0', 'id': 2, 'method': 'echo', 'params': {'a': 0.5}}])},
+            {**base, 'media': 'application/json', 'endpoint': 'prefix', 'prefix_style': 'trailing-slash', 'body': t(call)},
             {**base, 'media': 'APPLICATION/JSON', 'status': 'any-error-500', 'body': t([call, {'jsonrpc': '2.0', 'id': 2, 'method': 'nope'}])},
         ]
 
@@ -122,7 +125,7 @@ class C18(Check):
             status_name = spec['status'] if integration != 'werkzeug' else 'default'
             endpoint = spec['endpoint'] if integration != 'werkzeug' else 'base'
             codec = spec.get('codec', 'default')
-            post, dispatcher_for = httpapps.get_app(integration, status_name, spec['base'], codec)
+            post, dispatcher_for = httpapps.get_app(integration, status_name, spec['base'], codec, spec.get('prefix_style', 'plain'))
             sentinel = object()
             hm.RT.reset(sentinel, behaviours, error_builder=sh.build_error)
             where = f"{integration}: {where0}"
@@ -228,6 +231,8 @@ class C18(Check):
             classes.append('status/non-default')
         if spec['endpoint'] == 'prefix':
             classes.append('endpoint/prefix')
+            if spec.get('prefix_style', 'plain') != 'plain':
+                classes.append('endpoint/prefix-registered-with-trailing-slash')
         if spec.get('codec', 'default') != 'default':
             classes.append('codec/custom')
             if text is not None and accepted and 'decimal:' in json.dumps([o[1] for o in observations.values()], default=repr):
